@@ -26,6 +26,8 @@ def run(ctx):
     R1 = ctx.rule('C18.R1', 'read_from_file: success and out-parameters only past every short-read test, the deadline test and crc == CRC32(data read)')
     R2 = ctx.rule('C18.R2', 'writer header layout == reader read sequence; CRC and size describe exactly the bytes written; header precedes data')
     R3 = ctx.rule('C18.R3', 'read/save/timestamp/unlink only inside the lifetime of a locked_file; the lock is taken in its constructor and released in its destructor')
+    R5 = ctx.rule('C18.R5', 'read_all / write_all transfer exactly n bytes or fail, and terminate: true only when the count reached 0; each turn of the loop either returns, retries after EINTR, or subtracts the positive result of the system call; a result <= 0 that is not EINTR fails (a truncated file - the crash state - ends the read with false instead of spinning)')
+    R6 = ctx.rule('C18.R6', 'cross-process mode (file_lock_): the constructor hands out a descriptor only after an exclusive fcntl lock was obtained on it and the locked file is still the one the name refers to (same inode and device); otherwise the descriptor is closed and reset')
     R4 = ctx.rule('C18.R4', 'files are unlinked only on the failure edge of load / an expired timestamp in gc, and gc only touches 32-hex-digit names')
 
     rf = P.fn(FS + '::read_from_file')
@@ -99,6 +101,96 @@ def run(ctx):
     ctx.check(ok, R1, 'read_from_file:returns-the-verified-bytes', 'returned data are not the verified buffer', rf.where)
     tw = [w for w in q.writes_to(rf, outs[0])]
     ctx.check(len(tw) == 1 and tvar in rf.subtree_refs(tw[0]), R1, 'read_from_file:returns-stored-deadline', 'returned deadline is not the stored one', rf.where)
+    # every success hands out the value: the verified bytes, or the empty string only when the stored size is 0
+    from vlib import lin as _lin18
+    SYr = _lin18.Symb(rf)
+    SZ = _lin18.Lin.atom(sizevar)
+
+    def size_is_zero(atom, pol):
+        n_ = rf.N(atom)
+        if n_['k'] != 'BinaryOperator' or n_.get('op') not in ('<', '<=', '>', '>=', '==', '!=') or sizevar not in rf.subtree_refs(atom):
+            return False
+        cons = SYr.rel(atom, pol)
+        return bool(cons) and _lin18.implies(cons + [_lin18.ge(SZ)], _lin18.eq(SZ))
+    g_zero = rf.gate_edges(size_is_zero)
+    clr = [i for i in rf.calls() if q.short_of(rf.callee(i)) in ('clear', 'erase', 'resize') and rf.obj(i) is not None and rf.ref_of(rf.obj(i)) == outs[1]]
+    for k_, i in enumerate(clr):
+        ctx.check(bool(g_zero) and rf.only_through(i, g_zero), R1, 'read_from_file:empty-value#%d:only-for-stored-size-0' % k_, 'a stored value of non-zero length can be handed out as the empty string', rf.loc(i))
+    ev = asg + clr
+    for k_, r in enumerate(succ):
+        reach = rf.reachable_blocks(cut_blocks=q.blocks_of(rf, ev))
+        ctx.check(bool(ev) and rf.point_of(r)[0] not in reach, R1, 'read_from_file:success#%d:value-handed-out' % k_, 'success is reported on a path that leaves the caller\'s string as it was', rf.loc(r))
+
+    # ---------------- R5 transfer loops
+    for nm_, sysc in (('read_all', 'read'), ('write_all', 'write')):
+        f = P.fn(FS + '::' + nm_)
+        cnt = q.param_by_index(f, 2)
+        lps = [L for L in q.loops(f) if cnt in f.subtree_refs(f.N(L).get('cond', L) if f.N(L).get('cond', -1) not in (None, -1) else L)]
+        sc = [i for i in f.calls() if f.callee(i) == sysc or (f.callee(i) or '').endswith('::' + sysc)]
+        okb = len(lps) == 1 and len(sc) == 1 and f.contains(lps[0], sc[0])
+        ctx.check(okb, R5, '%s:one-loop-around-%s' % (nm_, sysc), 'expected one loop on the remaining count around the system call', f.where)
+        if not okb:
+            continue
+        L = lps[0]
+        SYf = _lin18.Symb(f)
+        N_ = _lin18.Lin.atom(cnt)
+        resv = None
+        for (d_, v_) in [(d_, v_) for r_ in [x for x in f.subtree_refs(L) if x.startswith('v:')] for (d_, v_) in f.defs_of_var(r_)]:
+            if v_ is not None and sc[0] in set(f.walk(v_)):
+                resv = [r_ for r_ in f.subtree_refs(d_) if r_.startswith('v:')][0] if f.N(d_)['k'] != 'DeclStmt' else [dd['ref'] for dd in f.N(d_)['decls'] if dd.get('init') is not None and sc[0] in set(f.walk(dd['init']))][0]
+        ctx.check(resv is not None, R5, '%s:result-kept' % nm_, 'the result of the system call is not kept', f.loc(sc[0]))
+        if resv is None:
+            continue
+        RES = _lin18.Lin.atom(resv)
+
+        def done(atom, pol, f=f, SYf=SYf, N_=N_, cnt=cnt):
+            n_ = f.N(atom)
+            if n_['k'] != 'BinaryOperator' or n_.get('op') not in ('<', '<=', '>', '>=', '==', '!=') or cnt not in f.subtree_refs(atom):
+                return False
+            cons = SYf.rel(atom, pol)
+            return bool(cons) and _lin18.implies(cons, _lin18.ge(N_.scale(-1)))          # n <= 0
+        g_done = f.gate_edges(done)
+        succ_ = q.nonfalse_returns(f)
+        ctx.check(bool(succ_) and bool(g_done) and all(f.only_through(r, g_done) for r in succ_), R5, '%s:true-only-when-nothing-remains' % nm_, 'success is reported while bytes remain', f.where)
+
+        def positive(atom, pol, f=f, SYf=SYf, RES=RES, resv=resv):
+            n_ = f.N(atom)
+            if n_['k'] != 'BinaryOperator' or n_.get('op') not in ('<', '<=', '>', '>=', '==', '!=') or resv not in f.subtree_refs(atom):
+                return False
+            cons = SYf.rel(atom, pol)
+            return bool(cons) and _lin18.implies(cons, _lin18.ge(RES - _lin18.Lin.const(1)))   # res >= 1
+        g_pos = f.gate_edges(positive)
+        decs = [w for w in q.writes_to(f, cnt, L)]
+        okd = len(decs) == 1
+        if okd:
+            m_ = f.N(decs[0])
+            okd = (m_['k'] == 'CompoundAssignOperator' and m_.get('op') == '-=' and f.ref_of(m_['ch'][1]) == resv) or \
+                  (m_['k'] == 'BinaryOperator' and m_.get('op') == '=' and (SYf.lin(m_['ch'][1]) - N_ + RES).is_const() and (SYf.lin(m_['ch'][1]) - N_ + RES).c == 0)
+        ctx.check(okd and bool(g_pos) and f.only_through(decs[0], g_pos), R5, '%s:count-reduced-by-the-positive-result' % nm_,
+                  'the remaining count is not reduced by exactly the (positive) number of bytes the system call transferred', f.loc(decs[0]) if decs else f.where)
+        # a new attempt without progress only after an interrupted call (res < 0 and errno == EINTR)
+        def interrupted(atom, pol, f=f):
+            n_ = f.N(atom)
+            return n_['k'] == 'BinaryOperator' and n_.get('op') == '==' and pol is True and any((f.N(j).get('ref') or '').endswith('EINTR') or f.const_value(j) == 4 for j in f.walk(n_['ch'][1])) and \
+                any(f.callee(j) in ('__errno_location',) for j in f.calls(n_['ch'][0]))
+
+        def negative(atom, pol, f=f, SYf=SYf, RES=RES, resv=resv):
+            n_ = f.N(atom)
+            if n_['k'] != 'BinaryOperator' or n_.get('op') not in ('<', '<=', '>', '>=', '==', '!=') or resv not in f.subtree_refs(atom):
+                return False
+            cons = SYf.rel(atom, pol)
+            return bool(cons) and _lin18.implies(cons, _lin18.ge(RES.scale(-1) - _lin18.Lin.const(1)))   # res <= -1
+        g_int, g_neg = f.gate_edges(interrupted), f.gate_edges(negative)
+        # from the system call, the next evaluation of the loop condition is reached only through the decrement, or through both retry facts
+        pc = f.point_of(f.N(L)['cond'])
+        psc = f.last_point_of(sc[0])
+        cutd = q.blocks_of(f, decs)
+        r1 = f.reachable_blocks(start=psc[0], cut_blocks=cutd, cut_edges=g_int)
+        r2 = f.reachable_blocks(start=psc[0], cut_blocks=cutd, cut_edges=g_neg)
+        same = psc[0] == pc[0]
+        ctx.check(okd and bool(g_int) and bool(g_neg) and (same or (pc[0] not in r1 and pc[0] not in r2)), R5, '%s:no-progress-retry-only-after-EINTR' % nm_,
+                  'the loop can go round without transferring anything for a reason other than an interrupted call (end of file / an error would spin for ever)', f.loc(L))
+    ctx.floor(R5, 8)
 
     # ---------------- R2
     sf = P.fn(FS + '::save_to_file')
@@ -190,6 +282,74 @@ def run(ctx):
         pc = [i for i in f.calls() if (f.callee(i) or '').startswith('pthread_')]
         ok = len(pc) == 1 and f.callee(pc[0]) == prim and any(f.bcallee(j) == FS + '::sid_to_pos' for j in f.calls(pc[0]))
         ctx.check(ok, R3, '%s:primitive' % name, 'does not map to %s(sid_to_pos(sid))' % prim, f.where)
+
+    # ---------------- R6 fcntl lock of the cross-process mode
+    for f in lfc:
+        def fcntl_result_var(g, c_):
+            for (d_, v_) in [(d_, v_) for r_ in set(x for x in g.subtree_refs(g.body) if x.startswith('v:')) for (d_, v_) in g.defs_of_var(r_)]:
+                if v_ is not None and c_ in set(g.walk(v_)):
+                    if g.N(d_)['k'] == 'DeclStmt':
+                        return [dd['ref'] for dd in g.N(d_)['decls'] if dd.get('init') is not None and c_ in set(g.walk(dd['init']))][0]
+                    return g.ref_of(g.N(d_)['ch'][0])
+            return None
+        # the acquisition site: fcntl(fd_, F_SETLKW, &lock) in the constructor itself, or a helper of the class that does exactly that
+        # with the lock type it is given and returns fcntl's result
+        fc = [(i, None) for i in f.calls() if f.callee(i) == 'fcntl']
+        for i in f.calls():
+            g = P.fns.get(f.N(i).get('callee') or '')
+            if g is None or g is f or g.brecord != f.brecord or g.entry is None or len(g.params) != 1:
+                continue
+            gfc = [j for j in g.calls() if g.callee(j) == 'fcntl']
+            glt = q.field_writes(g, 'flock::l_type')
+            if len(gfc) == 1 and g.const_value(g.args(gfc[0])[1]) == 7 and len(glt) == 1 and g.ref_of(g.N(glt[0])['ch'][1]) == g.params[0]['ref'] and q.before(g, glt[0], gfc[0]):
+                grv = fcntl_result_var(g, gfc[0])
+                if grv is not None and g.returns() and all(g.ref_of(g.ret_value(r)) == grv for r in g.returns()):
+                    fc.append((i, g))
+        ctx.check(len(fc) == 1 and (fc[0][1] is not None or f.const_value(f.args(fc[0][0])[1]) == 7), R6, 'locked_file:blocking-fcntl-lock', 'expected one fcntl(fd, F_SETLKW, &lock) in the constructor (directly or through a helper of the class)', f.where)
+        if len(fc) != 1:
+            continue
+        c, via = fc[0]
+        g_mode = f.gate_edges(lambda atom, pol, f=f: (model.strip_targs(f.ref_of(atom) or '')).endswith('session_file_storage::file_lock_') and pol is True)
+        ctx.check(bool(g_mode) and f.only_through(c, g_mode), R6, 'locked_file:lock-taken-in-file_lock-mode', 'the fcntl lock does not depend on file_lock_', f.loc(c))
+        if via is None:
+            lt = [w for w in q.field_writes(f, 'flock::l_type')]
+            okx = len(lt) == 1 and f.const_value(f.N(lt[0])['ch'][1]) == 1 and q.before(f, lt[0], c)
+        else:
+            okx = f.const_value(f.args(c)[0]) == 1
+        ctx.check(okx, R6, 'locked_file:exclusive-lock', 'the lock requested is not F_WRLCK', f.loc(c))
+        resets = [w for w in q.field_writes(f, 'locked_file::fd_') if (f.const_value(f.N(w)['ch'][1]) or 0) < 0]
+        closing_helpers = set()
+        for i in f.calls():
+            g = P.fns.get(f.N(i).get('callee') or '')
+            if g is None or g is f or g.brecord != f.brecord or g.entry is None or g.params:
+                continue
+            gw = [w for w in q.field_writes(g, 'locked_file::fd_') if (g.const_value(g.N(w)['ch'][1]) or 0) < 0]
+            if gw and q.always_before_exit(g, gw) and any(g.callee(j) == 'close' for j in g.calls()):
+                resets.append(i)
+                closing_helpers.add(i)
+        rv = fcntl_result_var(f, c)
+        g_got = f.gate_edges(lambda atom, pol, f=f, rv=rv: f.N(atom)['k'] == 'BinaryOperator' and f.N(atom).get('op') in ('<', '!=') and rv is not None and f.ref_of(f.N(atom)['ch'][0]) == rv and f.const_value(f.N(atom)['ch'][1]) == 0 and pol is False)
+
+        def same(field):
+            def pred(atom, pol, f=f):
+                n_ = f.N(atom)
+                if n_['k'] != 'BinaryOperator' or n_.get('op') not in ('!=', '=='):
+                    return False
+                fr = [model.strip_targs(r).rsplit('::', 1)[-1] for r in f.subtree_refs(atom) if r.startswith('f:')]
+                vs = set(r for r in f.subtree_refs(atom) if r.startswith('v:'))
+                return set(fr) == {field} and len(vs) == 2 and ((n_['op'] == '!=' and pol is False) or (n_['op'] == '==' and pol is True))
+            return f.gate_edges(pred)
+        g_ino, g_dev = same('st_ino'), same('st_dev')
+        pc = f.last_point_of(c)
+        cutb = q.blocks_of(f, resets)
+        for nm_, g_ in (('lock-obtained', g_got), ('same-inode', g_ino), ('same-device', g_dev)):
+            reach = f.reachable_blocks(start=pc[0], cut_blocks=cutb, cut_edges=g_)
+            ctx.check(bool(g_) and bool(resets) and f.exit not in reach, R6, 'locked_file:descriptor-kept-only-if:%s' % nm_,
+                      'the constructor can return an open descriptor although the lock was not obtained / the file under the name was replaced meanwhile', f.loc(c))
+        for k_, w in enumerate(resets):
+            cl = [i for i in f.calls() if f.callee(i) == 'close' and f.point_of(i)[0] == f.point_of(w)[0]]
+            ctx.check(bool(cl) or w in closing_helpers, R6, 'locked_file:reset#%d:descriptor-closed' % k_, 'descriptor forgotten without closing it (the fcntl lock of the process on that file stays)', f.loc(w))
+    ctx.floor(R6, 7)
 
     # ---------------- R4
     ld = P.fn(FS + '::load')
